@@ -343,9 +343,106 @@ def _rust_order_guards(ctx) -> None:
     ctx.count("rust_order_errors", n)
 
 
+def _interval_tabulate(ctx, m, fn) -> bool:
+    """INTERVAL.tabulated: parser._parse is run by the checker's interpreter on the three interval forms the low-level parser
+    can hand it (start/end, start/duration, duration/end; stubs that only record what is done to them), with and without a
+    tz option: the result must be interval(start, end) - not absolute - with every bound taken through
+    pendulum.instance(bound, tz=<the option, default UTC>) and the missing bound computed from the given one by add() /
+    subtract() with the eight components of the duration, each from its own accessor.  False: outside the interpreter."""
+    from ..rules import minieval
+    S = minieval.Stub
+    comps = {"years": 1, "months": 2, "weeks": 3, "remaining_days": 4, "hours": 5, "minutes": 6, "remaining_seconds": 7, "microseconds": 8}
+    want_kw = {k: comps[v] for k, v in COMP.items()}
+    UTCm, TZm = S(_name="UTC"), S(_name="tz option")
+    kinds = {"datetime": ("datetime", "date"), "date": ("date",), "time": ("time",)}
+
+    def klass(name):
+        return minieval.ClassStub(_new=lambda *a, **k: (_ for _ in ()).throw(core.Unsupported(f"{name}() constructed")),
+                                  _isa=lambda v, n=name: isinstance(v, S) and n in kinds.get(getattr(v, "_kind", ""), ()))
+
+    def instance(x, tz=None, **k):
+        def shift(op):
+            return lambda **kw: S(_shift=(op, me, kw))
+        me = S(_of=x, _tz=tz, tzinfo=tz)
+        vars(me)["add"], vars(me)["subtract"] = shift("add"), shift("subtract")
+        return me
+    bad: list[str] = []
+    n = 0
+    try:
+        for form in ("start/end", "start/duration", "duration/end"):
+            for opt in ({}, {"tz": TZm}):
+                a, b = S(_kind="datetime", _id="A", tzinfo=None), S(_kind="datetime", _id="B", tzinfo=None)
+                dur = S(_kind="duration", days=99, seconds=98, total_seconds=lambda: 97.0, **comps)
+                parsed = S(_iv=True, start=a if form != "duration/end" else None, end=b if form != "start/duration" else None,
+                           duration=None if form == "start/end" else dur)
+                glob = {"base_parse": minieval.ClassStub(_new=lambda *a_, **k_: parsed, _isa=lambda v: False),
+                        "pendulum": S(instance=instance, interval=lambda x, y, absolute=False: S(_interval=(x, y, absolute)),
+                                      now=lambda *a_, **k_: S(), datetime=lambda *a_, **k_: S(), date=lambda *a_, **k_: S(), time=lambda *a_, **k_: S(),
+                                      duration=lambda *a_, **k_: S()),
+                        "datetime": S(datetime=klass("datetime"), date=klass("date"), time=klass("time")),
+                        "_Interval": minieval.ClassStub(_new=lambda *a_, **k_: S(), _isa=lambda v: isinstance(v, S) and getattr(v, "_iv", False)),
+                        "Duration": minieval.ClassStub(_new=lambda *a_, **k_: S(), _isa=lambda v: isinstance(v, S) and getattr(v, "_kind", "") == "duration"),
+                        "RustDuration": None, "UTC": UTCm, "t": S(cast=lambda ty, v: v, Any=None), "ParserError": ValueError, "NotImplementedError": ValueError}
+                funcs = {st.name: st for st in m.top() if isinstance(st, ast.FunctionDef)}
+                got = minieval.call(fn, ["x/y"], dict(opt), {**funcs, "$globals": glob})
+                n += 1
+                tzw = opt.get("tz", UTCm)
+                label = f"{form}{' with tz=' if opt else ''}"
+                iv = getattr(got, "_interval", None)
+                if iv is None:
+                    bad.append(f"{label}: does not return pendulum.interval(...)")
+                    continue
+                x, y, absolute = iv
+                if absolute:
+                    bad.append(f"{label}: the interval is built with absolute={absolute!r}: reversed endpoints come back swapped")
+
+                def bound(v, which):
+                    if getattr(v, "_of", None) is None:
+                        return f"{which} is not pendulum.instance(<bound>)"
+                    if v._of is not (a if which == "start" else b):
+                        return f"{which} is built from the other bound"
+                    if v._tz is not tzw:
+                        return f"{which} is given tz={getattr(v._tz, '_name', v._tz)!r} instead of the tz option (default UTC)"
+                    return ""
+
+                def shifted(v, op, base_which):
+                    sh = getattr(v, "_shift", None)
+                    if sh is None:
+                        return "the missing bound is not computed with add()/subtract()"
+                    if sh[0] != op:
+                        return f"the missing bound is computed with {sh[0]}() instead of {op}()"
+                    if sh[2] != want_kw:
+                        return f"the missing bound is computed with {sh[2]}; the duration's components are {want_kw}"
+                    return bound(sh[1], base_which)
+                if form == "start/end":
+                    errs = [bound(x, "start"), bound(y, "end")]
+                elif form == "start/duration":
+                    errs = [bound(x, "start"), shifted(y, "add", "start")]
+                else:
+                    errs = [shifted(x, "subtract", "end"), bound(y, "end")]
+                bad += [f"{label}: {e}" for e in errs if e]
+    except (core.Unsupported, KeyError, TypeError, AttributeError, ValueError, IndexError, RecursionError):
+        return False
+    ctx.ob("INTERVAL.tabulated", "parser._parse", not bad,
+           f"{n} (form, tz option) cases: " + ("; ".join(bad[:3]) if bad else "interval(start, end), bounds through pendulum.instance(.., tz=option or UTC), "
+           "the missing bound by add()/subtract() of the eight components"), m.loc(fn))
+    return not bad
+
+
 def _interval_assembly(ctx) -> None:
     m = pmod("parser")
     fn = m.func("_parse")
+    tab = _interval_tabulate(ctx, m, fn)
+    if tab:
+        for c_ in ("dt.add", "dt.subtract", "forms"):
+            ctx.ob("INTERVAL.assembly", f"parser._parse/{c_}", True, "established by INTERVAL.tabulated", m.rel, nontrivial=False)
+        ctx.ob("INTERVAL.tz", "parser._parse/instances", True, "established by INTERVAL.tabulated", m.rel, nontrivial=False)
+    else:
+        _interval_assembly_shape(ctx, m, fn)
+    _interval_attrs(ctx, m, fn)
+
+
+def _interval_assembly_shape(ctx, m, fn) -> None:
     calls = {}
     for c in core.calls(fn):
         f = nun(c.func)
@@ -377,6 +474,9 @@ def _interval_assembly(ctx) -> None:
         ctx.ob("INTERVAL.tz", f"parser._parse/pendulum.instance[{i_}]", tzv == "options.get('tz', UTC)",
                f"`{nun(c)[:70]}` passes tz={tzv}; every interval bound without its own offset takes the tz option (default UTC)", m.loc(c))
     ctx.ob("INTERVAL.tz", "parser._parse/instances", len(insts) >= 4, f"{len(insts)} interval bounds are wrapped with pendulum.instance", m.loc(fn), nontrivial=False)
+
+
+def _interval_attrs(ctx, m, fn) -> None:
     # attribute agreement for the duration object
     need = set(COMP.values())
     pyi = core.mod("src/pendulum/_pendulum.pyi")
@@ -410,6 +510,7 @@ def run(ctx) -> None:
     from . import C09
     ctx.step(C09._duration_new, ctx)        # 'a remaining length equal to the exact value rounded to the microsecond': every parsed duration is built through Duration.__new__
     ctx.expect_min("FRACTION-SCALE", 6)
-    ctx.expect_min("INTERVAL.assembly", 5)
+    ctx.expect_min("INTERVAL.assembly", 3)
+    ctx.expect_min("INTERVAL.tabulated", 1)
     ctx.expect_min("RUST-ARITH", 4)
     ctx.assumptions += ["rust/Cargo.toml's release profile (overflow-checks=false) is what the shipped extension is built with"]
